@@ -170,7 +170,7 @@ pub fn gen_pro(r: &mut Rng, thorough: bool, cx: &mut Ctx) {
         for i in 0..n {
             let a = match i % 3 { 0 => own, 1 => 0xffff, _ => other_addr(r, own) };
             let mut b: L = vec![2, 1]; let mut g: L = vec![0]; let p = small_packet(r, a); show_packet(&p, &mut g); push_list(&mut b, &g); ops.push(b);
-            let mut b: L = vec![3]; let p = small_packet(r, if i % 2 == 0 { own } else { other_addr(r, own) }); show_packet(&p, &mut b); ops.push(b);
+            let a2 = if i % 2 == 0 { own } else { other_addr(r, own) }; let mut b: L = vec![3]; let p = small_packet(r, a2); show_packet(&p, &mut b); ops.push(b);
         }
         let mut l = vec![own as u64, ops.len() as u64]; for o in ops.iter() { push_list(&mut l, o); }
         cx.emit(&l);
